@@ -167,6 +167,7 @@ static size_t unrecord(void* p) {
   return sz;
 }
 static void junk_fill(void* p, size_t n) {
+  if (g_alloc.junk_by_address && n) { uint8_t* b = (uint8_t*) p; for (size_t i = 0; i < n; i++) { uintptr_t a = (uintptr_t) (b + i); b[i] = (uint8_t) (((a * 0x9E3779B97F4A7C15ULL) >> 29) | 1); } return; }
   if (!g_alloc.junk || !n) return;
   memset(p, g_alloc.junk_byte, n);
 }
